@@ -113,6 +113,24 @@ fn d6_seed_roundtrip_1024() {
     assert!(sk == sk2);
 }
 
+#[test]
+fn d7_babai_zero_capital_fg() {
+    // (F, G) = (0, 0) lies in C17's domain; the big-integer version returns Ok, the 32-bit one evaluated ilog2(0)
+    use crate::math::{babai_reduce_bigint, babai_reduce_i32};
+    use crate::polynomial::Polynomial;
+    use num::BigInt;
+    let f = Polynomial::new(vec![3i32, -1, 2, 1]);
+    let g = Polynomial::new(vec![1i32, 2, -2, 1]);
+    let mut cf = Polynomial::new(vec![0i32; 4]);
+    let mut cg = Polynomial::new(vec![0i32; 4]);
+    let (fb, gb) = (f.map(|&c| BigInt::from(c)), g.map(|&c| BigInt::from(c)));
+    let (mut cfb, mut cgb) = (cf.map(|&c| BigInt::from(c)), cg.map(|&c| BigInt::from(c)));
+    assert!(babai_reduce_bigint(&fb, &gb, &mut cfb, &mut cgb).is_ok());
+    assert!(babai_reduce_i32(&f, &g, &mut cf, &mut cg).is_ok());
+    assert_eq!(cf.map(|&c| BigInt::from(c)), cfb);
+    assert_eq!(cg.map(|&c| BigInt::from(c)), cgb);
+}
+
 // ---- known findings (not fixed): these tests FAIL on the current tree and document the input
 #[test]
 fn k1_sampler_z_large_centre() {
